@@ -56,6 +56,22 @@ def register(w):
         c.after("self._schedule_state_tasks(node)", "rearmed = store(rearmed, node, True)")
         c.before("raise", "in_rearm = False")
         c.ens("not final_aborted", label="ghost:an-aborted-transition-is-reported-not-swallowed")
+        # contract E applied (as a lemma proved inside the body; `target_state` is a local here, so it is not a postcondition):
+        # what the step activates hangs below an active state and is locally legal - same hints as the sync step
+        PREM = f"(target_state.type != 'history' and target_state != root and forall[Node](lambda a: implies(anc(transition.source, a), a in old({A}))))"
+        P_ = "path_to_enter"
+        c.before("await self._enter_states(path_to_enter, event)",
+                 f"assert implies({PREM}, domain != None and domain in {A} and domain != target_state and anc(target_state, domain))",
+                 f"assert implies({PREM}, len({P_}) >= 1 and {P_}[0] != None and {P_}[0].parent == domain and anc(target_state, {P_}[0]))",
+                 f"assert implies({PREM}, forall[Node](lambda n: implies(n in {A}, n in old({A}))))",
+                 f"assert implies({PREM} and {P_}[0].parent == domain, forall[Node](lambda n: implies(anc(n, {P_}[0]), not (n in {A}))))",
+                 f"assert implies({PREM}, forall[int](lambda i: implies(0 <= i and i < len({P_}) and {P_}[i] != target_state, child_toward({P_}[i], target_state).parent == {P_}[i]), lambda i: {P_}[i]))",
+                 f"assert implies({PREM}, forall[int](lambda i: implies(0 <= i and i < len({P_}), {P_}[i].type != 'history'), lambda i: {P_}[i]))",
+                 f"assert implies({PREM}, forall[int](lambda i: implies(0 <= i and i < len({P_}), {P_}[i].depth == {P_}[0].depth + i), lambda i: {P_}[i]))",
+                 f"assert implies({PREM} and {P_}[0].parent == domain, fresh_chain({P_}, {A}))")
+        c.after("await self._enter_states(path_to_enter, event)",
+                f"assert implies({PREM}, forall[Node](lambda n: implies(n in {A} and not (n in old({A})), ({P_}[0].parent == domain or {P_}[0] == root))))",
+                f"assert implies({PREM} and {P_}[0].parent == domain, forall[Node](lambda n: implies(n in {A} and not (n in old({A})), (n.parent in {A} or n == root) and okn(n, {A}))))")
         c.may_raise("Exception", ensures=[
             ("configuration-rolled-back-exactly", f"set_eq({A}, old({A}))"), ("queue-append-only", "ghost:" + APP0),
             ("status-moves-along-allowed-edges", "status_reach(old(self.status), self.status)"), ("history-holds-states", HWF_X),
@@ -113,6 +129,25 @@ def register(w):
         c.ens("not final_aborted", label="ghost:an-aborted-transition-is-reported-not-swallowed")
         c.ens(ANN_X, label="configuration-holds-states")
         c.ens(HWF_X, label="history-holds-states")
+        # contract E applied: when the source's ancestors are all active (true of a legal configuration) and the target is a real
+        # state other than the root, the path entered is a fresh chain - so whatever this step activates hangs below an
+        # active state and is locally legal
+        c.ens(f"implies(target_state.type != 'history' and target_state != root and forall[Node](lambda a: implies(anc(transition.source, a), a in old({A}))), "
+              f"forall[Node](lambda n: implies(n in {A} and not (n in old({A})), (n.parent in {A} or n == root) and okn(n, {A}))))", label="what-a-transition-activates-is-locally-legal")
+        PREM = f"(target_state.type != 'history' and target_state != root and forall[Node](lambda a: implies(anc(transition.source, a), a in old({A}))))"
+        P_ = "path_to_enter"
+        c.before("self._enter_states(path_to_enter, event)",
+                 f"assert implies({PREM}, domain != None and domain in {A} and domain != target_state and anc(target_state, domain))",
+                 f"assert implies({PREM}, len({P_}) >= 1 and {P_}[0] != None and {P_}[0].parent == domain and anc(target_state, {P_}[0]))",
+                 f"assert implies({PREM}, forall[Node](lambda n: implies(n in {A}, n in old({A}))))",
+                 f"assert implies({PREM} and {P_}[0].parent == domain, forall[Node](lambda n: implies(anc(n, {P_}[0]), not (n in {A}))))",
+                 f"assert implies({PREM}, forall[int](lambda i: implies(0 <= i and i < len({P_}) and {P_}[i] != target_state, child_toward({P_}[i], target_state).parent == {P_}[i]), lambda i: {P_}[i]))",
+                 f"assert implies({PREM}, forall[int](lambda i: implies(0 <= i and i < len({P_}), {P_}[i].type != 'history'), lambda i: {P_}[i]))",
+                 f"assert implies({PREM}, forall[int](lambda i: implies(0 <= i and i < len({P_}), {P_}[i].depth == {P_}[0].depth + i), lambda i: {P_}[i]))",
+                 f"assert implies({PREM} and {P_}[0].parent == domain, fresh_chain({P_}, {A}))")
+        c.after("self._enter_states(path_to_enter, event)",
+                f"assert implies({PREM}, forall[Node](lambda n: implies(n in {A} and not (n in old({A})), ({P_}[0].parent == domain or {P_}[0] == root))))",
+                f"assert implies({PREM} and {P_}[0].parent == domain, forall[Node](lambda n: implies(n in {A} and not (n in old({A})), (n.parent in {A} or n == root) and okn(n, {A}))))")
         c.may_raise("Exception", ensures=[
             ("configuration-rolled-back-exactly", f"set_eq({A}, old({A}))"), ("queue-append-only", "ghost:" + APP0),
             ("status-moves-along-allowed-edges", "status_reach(old(self.status), self.status)"), ("history-holds-states", HWF_X),
